@@ -12,7 +12,7 @@ Operations (node ids are creation indices):
     ["unregister", n, mid]
     ["use", n]                                first use of n (a probe call)
 
-mspec: {"mid", "t": class name, "kind": leaf|walk_list|map_list|walk_tuple|wrap|self_list, "prio"}
+mspec: {"mid", "t": class name, "kind": leaf|walk_list|map_list|nest_list|walk_tuple|wrap|self_list, "prio"}
 
 Model of one node: ordered parents, linkback flag, own = stack of mids per signature
 (signature = (type name, priority)); the effective table overlays the parents' tables in mixin
@@ -77,7 +77,10 @@ class Graph:
     def make(self, ms, owner_id):
         mid, kind = ms["mid"], ms["kind"]
         if kind == "leaf":
-            body = f"return ('leaf', {mid})"
+            body = f"return ('leaf', {mid}, x, acc)"
+        elif kind == "nest_list":   # a rewritten call nested in a later argument of another one
+            body = (f"return ['N{mid}'] + ([recurse(x[0], recurse(x[1], 0))] if len(x) >= 2 "
+                    f"else [recurse(e) for e in x])")
         elif kind == "walk_list":
             body = f"return ['L{mid}'] + [recurse(e) for e in x]"
         elif kind == "walk_tuple":
@@ -91,7 +94,7 @@ class Graph:
         else:
             raise ValueError(kind)
         # every method of every node is written `def f(x)`, the way a user's overloads and variants share one name
-        src = f"def f(x):\n    __vf.enter({mid}, locals())\n    {body}\n"
+        src = f"def f(x, acc=None):\n    __vf.enter({mid}, locals())\n    {body}\n"
         ns, file = load_source(src, self.ns, mid=mid, tag=self.tag, shared=True)
         self.files.append(file)
         fn = ns["f"]
@@ -177,15 +180,20 @@ class Graph:
         app.sort(reverse=True)
         return app[0][2]
 
-    def ev(self, n, v, depth=0):
-        """reference interpreter: result tree of calling node n on v."""
+    def ev(self, n, v, acc=None):
+        """reference interpreter: result tree of calling node n on v (second, optional argument acc)."""
         mid = self.resolve(n, v)
         if mid is None:
             raise LookupError
         ms = self.mspecs[mid]
         kind = ms["kind"]
         if kind == "leaf":
-            return ("leaf", mid)
+            return ("leaf", mid, v, acc)
+        if kind == "nest_list":
+            if len(v) >= 2:
+                inner = self.ev(n, v[1], 0)
+                return [f"N{mid}", self.ev(n, v[0], inner)]
+            return [f"N{mid}"] + [self.ev(n, e) for e in v]
         if kind == "walk_list":
             return [f"L{mid}"] + [self.ev(n, e) for e in v]
         if kind == "map_list":
